@@ -214,3 +214,65 @@ def locate_block(toks, item, spec):
             e = match_close(toks, i)
             return i, e
     raise ScanError("block comment not found")
+
+def R_execconst(toks):
+    """`const X: T = e;` becomes `exec const X: T { e }` (Verus mode annotation for a constant used by exec code; the
+    ensures clause goes between type and body as ghost text)."""
+    out = list(toks)
+    k = next((i for i, t in enumerate(out) if t.text == "const"), None)
+    if k is None: return toks, 0
+    # '=' at depth 0
+    j = k + 1; eq = None
+    while j < len(out):
+        t = out[j]
+        if t.kind == "punct" and t.text in OPEN:
+            j = match_close(out, j) + 1; continue
+        if t.text == "=": eq = j; break
+        j += 1
+    if eq is None or out[-1].text != ";": raise ScanError("R-execconst: not a `const X: T = e;` item")
+    out[eq] = Tok("punct", "{", " ", line=out[eq].line)
+    out[-1] = Tok("punct", "}", "\n", line=out[-1].line)
+    out.insert(k, Tok("ident", "exec", out[k].pre, line=out[k].line))
+    out[k+1].pre = " "
+    return out, 1
+
+def R_closure(toks, arg):
+    """`|args| e` (n-th closure, expression body) becomes `|args| -> (cret: T) { e }`: explicit return type and block,
+    identical meaning in Rust; the name `cret` is for the closure's ghost `ensures`. arg = "<n>:<T>"."""
+    n_s, ty = arg.split(":", 1)
+    n = int(n_s)
+    out = list(toks)
+    cnt = 0; i = 0
+    while i < len(out):
+        t = out[i]
+        # closure start: '|' in expression-start position (after '(' ',' '=' or 'move'), or '||'
+        if t.text == "|" and i > 0 and out[i-1].text in ("(", ",", "=", "move", "{", ";"):
+            # params end
+            if out[i+1].text == "|": pe = i + 1
+            else:
+                pe = i + 1
+                while out[pe].text != "|": pe += 1
+            cnt += 1
+            if cnt == n:
+                b = pe + 1
+                if out[b].text == "{" or out[b].text == "-": raise ScanError("R-closure: closure already has a block or return type")
+                j = b; d = 0
+                while j < len(out):
+                    u = out[j]
+                    if u.kind == "punct" and u.text in OPEN: j = match_close(out, j) + 1; continue
+                    if u.text in (")", "]", "}", ",", ";"): break
+                    j += 1
+                tyt, _ = tokenize(ty)
+                for x in tyt: x.pre = ""
+                new = _mk(["-", ">", "("], out[b], " ") + _mk(["cret", ":"], out[b], "")
+                new[1].pre = ""; new[3].pre = ""
+                tyt[0].pre = " "
+                new += tyt + _mk([")"], out[b], "") + _mk(["{"], out[b], " ")
+                body = out[b:j]
+                body[0].pre = " "
+                close = _mk(["}"], out[j-1], " ")
+                out[b:j] = new + body + close
+                return out, 1
+            i = pe + 1; continue
+        i += 1
+    raise ScanError(f"R-closure: closure #{n} not found")
